@@ -86,7 +86,8 @@ def func(name, **kw):
 
 IDENTS = ["a", "b", "c1", "foo", "bar-baz", "x_y", "-moz-x", "main", "red", "auto", "none", "solid", "i😀"]
 ESCAPED_IDENTS = [("a.b", "a\\.b"), ("123", "\\31 23"), ("café", "caf\\e9 "), ("a b", "a\\ b"), ("x:y", "x\\:y")]
-CLASSES = ["a", "b", "c", "item", "btn-primary", "x_1", "中", "a-b", "😀x", "b😀"]
+# (`p--x`, `a-b--c`, `--x`: names that begin with a configured prefix plus `--` are class names like any other)
+CLASSES = ["a", "b", "c", "item", "btn-primary", "x_1", "中", "a-b", "😀x", "b😀", "p--x", "p--", "a-b--c", "--x", "前缀--y"]
 # (`RPX` / `Rpx` are not generated: CSS units are ASCII case-insensitive, the property spells the unit `rpx`)
 UNITS = ["px", "em", "rem", "vh", "vw", "deg", "s", "ms", "fr", "rpxx", "erpx", "rp", "x", "PX", "Em"]
 PSEUDO = ["hover", "first-child", "before", "active", "root"]
@@ -263,7 +264,7 @@ class Gen:
                 # `1e` + `rpx`-like units would read as an exponent: keep the number/unit boundary unambiguous
                 unit = "px"
             return dimension(text, unit)
-        return percentage(self.pick(["0", "50", "100", "33.3333", "-10", "12.5", "1e1"]))
+        return percentage(self.pick(["0", "50", "100", "33.3333", "-10", "12.5", "1e1", "1234567", "-2147483647", "16777217", "+1000001", "999999"]))
 
     def calc(self, depth, name=None):
         """A calc() expression; everything nested in it (parentheses, math functions, var() fallbacks) is
@@ -486,7 +487,7 @@ class Gen:
 
     def import_rule(self):
         form = self.pick(["string", "string", "url-func", "url-token"])
-        path = self.pick(["a.wxss", "./b/c.wxss", "../x y.wxss", "a*/b.css", "中/文.wxss", "a%20b.css", "q'x.css", "a\"b.css", "/abs/p.css", "a?b=1&c=2", "sp ace.css"])
+        path = self.pick(["a.wxss", "./b/c.wxss", "../x y.wxss", "a*/b.css", "中/文.wxss", "a%20b.css", "q'x.css", "a\"b.css", "/abs/p.css", "a?b=1&c=2", "sp ace.css", " lead.css", "trail.css ", "\u3000wide.css", "\ttab.css\t", " "])
         conds = []
         if self.chance(0.35):
             # `layer(name)`, a dotted name (not a class selector), or the bare keyword (anonymous layer)
@@ -496,7 +497,7 @@ class Gen:
         media = None
         if self.chance(0.45):
             media = self.pick(["screen", "paren", "screen-and-paren", "all", "all-and-paren", "not-all", "only-screen-and-paren", "list", "paren-and-paren", "general-enclosed", "screen-and-general"])
-        x = {"t": "import", "form": form, "path": path, "conds": conds, "media": media}
+        x = {"t": "import", "form": form, "path": path, "conds": conds, "media": media, "supports_variant": self.pick([0, 0, 1, 1, 2])}
         if self.chance(0.12):
             # function names are ASCII case-insensitive
             x["fn_spelling"] = {"layer": self.pick(["LAYER", "Layer"]), "supports": self.pick(["SUPPORTS", "Supports"])}
